@@ -1,12 +1,14 @@
 #!/bin/bash
-# One-time setup after a fresh restore: warm the Go build cache for every check (offline).
+# One-time setup after a fresh restore: build every harness exactly as a check run does (overlay, source
+# rewrite for the scheduler checks, race-detector pass of C10) so that the Go build cache is warm. Offline.
 export GOFLAGS=-mod=mod GOPROXY=off GOSUMDB=off GOTOOLCHAIN=local
 cd /verif || exit 1
 cp /repo/go.sum go.sum 2>/dev/null
 mkdir -p .work/bin evidence replays
-python3 scripts/mkoverlay.py /repo > .work/overlay.setup.json || exit 1
+RC=0
 for d in checks/*/; do
   id=$(basename "$d")
-  go build -tags verif -overlay .work/overlay.setup.json -o .work/bin/$id ./checks/$id || echo "setup: $id failed to build"
+  VCHECK_BUILD_ONLY=1 ./vcheck $id quick || { echo "setup: $id failed to build"; RC=1; }
 done
 echo setup done
+exit $RC
